@@ -2225,11 +2225,14 @@ void send_raw(xmpp_conn_t *conn,
     if (conn->state != XMPP_STATE_CONNECTED)
         return;
 
-    d = strophe_strndup(conn->ctx, data, len);
+    /* data is a buffer of len raw bytes, not necessarily a C string */
+    d = strophe_alloc(conn->ctx, len + 1);
     if (!d) {
         strophe_error(conn->ctx, "conn", "Failed to strndup");
         return;
     }
+    memcpy(d, data, len);
+    d[len] = '\0';
 
     _send_raw(conn, d, len, owner, userdata);
 }
